@@ -12,7 +12,7 @@ RULE = ('correspondence (extracted model vs real library, both recording targets
         'table Gen/FontTable.v against the real constants: all 292 built-in fonts (10 geometry fields + FNV-1a digest of the whole glyph bitmap: fonts/raw file vs font.image.pixel() of the running library) x index of EVERY mapped character + 12 unmapped ones, '
         'all 14 mapping expansions. search (real built-in fonts only, reference = font.image.pixel() of the cell derived from the public glyph_mapping.index): '
         'p_c14_font = every font x every mapped character + control/non-BMP characters x 3 colour modes, one glyph at a time, plus index = position, '
-        'distinct indices, cell inside the atlas; p_c14_bitmap = digest of the glyph bitmap of every font in the running library vs the committed reference Proofs/FontGolden.v; p_c14_codepage = every mapping against the standard code page (Python codecs as independent reference): glyph index of every defined character; p_c14_str = random lines x 16 colour/decoration combinations x baselines on random built-in fonts; p_c14_synth = the same reference on the synthetic custom fonts (spacing, odd atlas row lengths, cells outside the atlas draw nothing).')
+        'distinct indices, cell inside the atlas; p_c14_deco_defaults = DecorationDimensions::default_strikethrough / default_underline against their documented formulas (custom font helpers); p_c14_bitmap = digest of the glyph bitmap of every font in the running library vs the committed reference Proofs/FontGolden.v; p_c14_codepage = every mapping against the standard code page (Python codecs as independent reference): glyph index of every defined character; p_c14_str = random lines x 16 colour/decoration combinations x baselines on random built-in fonts; p_c14_synth = the same reference on the synthetic custom fonts (spacing, odd atlas row lengths, cells outside the atlas draw nothing).')
 EXHAUSTIVE = {'quick': False, 'thorough': False}
 ASSUMPTIONS = ['draw_ok: |position| <= 2^28 and x + n*(cw+spacing) <= 2^28; font_ok: all font fields non-negative (u32) with heights/offsets <= 2^28; '
                'index_ok: every glyph index satisfies 0 <= index < 2^32 and (index / glyphs_per_row + 1) * ch < 2^31 (MonoFont::glyph casts `index as u32`, multiplies '
@@ -23,7 +23,7 @@ TRUSTED = ['modelled, not verified: the atlas is an abstract bit function (font.
            'translate/gen_fonts.py (regex translator, fails closed on unknown shapes) reads the font constants, the mapping strings and the raw file sizes',
            'a string is the list of its code points; char ranges skip the surrogate gap as core::ops::RangeInclusive<char> does']
 PARTIAL = []
-LEVEL_TEXT = ('Proof: 31 Coq theorems. For ANY font record (any atlas row length, spacing, decoration dimensions, any glyph-index function) and ANY string, '
+LEVEL_TEXT = ('Proof: 36 Coq theorems. For ANY font record (any atlas row length, spacing, decoration dimensions, any glyph-index function) and ANY string, '
               'the pixel map of the model of MonoTextStyle::draw_string is characterised completely: pixel (dx,dy) of the i-th cell at x + i*(cw+spacing) shows '
               'the atlas cell the mapping designates (on -> text colour, off -> background or untouched), spacing columns get the background, underline and '
               'strikethrough cover [x, next.x) at the font offsets (underline on top), nothing else is touched; StrGlyphMapping::index is the position of the first '
@@ -32,7 +32,7 @@ LEVEL_TEXT = ('Proof: 31 Coq theorems. For ANY font record (any atlas row length
               'designates a cell completely inside the atlas, raw length = bytes_per_row*height, records are well formed with spacing 0, the n-th mapped '
               'character has index n, unmapped characters get the index of "?"; end to end: the i-th character of a string drawn with a built-in font shows exactly atlas cell '
               '(n mod glyphs_per_row, n / glyphs_per_row) for the n-th mapped character and the cell of "?" for an unmapped one; mapped characters own pairwise disjoint cells; '
-              'Text::draw of a one-line text is draw_string at the aligned, baseline-adjusted position. The hand-written model is tied to the code by differential runs (see rule).')
+              'Text::draw of a one-line text is draw_string at the aligned, baseline-adjusted position; the crate-private NULL_FONT (regenerated from mod.rs) is all zero and draws nothing. The hand-written model is tied to the code by differential runs (see rule).')
 LEVEL_NOTE = ('Trusted: Coq kernel, extraction, OCaml/Rust drivers, the regex translator. The model of draw_string is validated against the real code by '
               'differential testing, not proved equal to it. Glyph bitmaps themselves (which bits are on) are data: the atlas of the running library is tied to the fonts/raw files by a digest per font (c14_bi) and both to a committed reference (C14_builtin_bitmaps_unchanged, p_c14_bitmap), so a changed or swapped bitmap file breaks a proof and drawn glyphs are compared pixel by pixel with font.image in the search suites; WHICH picture sits in a cell has no independent reference (the BDF sources are not in the repository).')
 
@@ -169,6 +169,7 @@ def cases(tier, rng):
     for name, mi in fonts:
         yield J('c14_bi', name, lst(maps[mi][1] + UNMAPPED))
     yield 'c14_bi ascii::FONT_1X1 0'
+    yield J('c14_bi', 'null::NULL_FONT', lst(maps[0][1] + UNMAPPED))   # the crate-private default font (table: null_font)
     n = 3000 if tier == 'quick' else 60000
     for _ in range(n):
         data = mapping_string(rng)
@@ -214,6 +215,8 @@ def search(tier, rng):
     maps, fonts = table()
     for name, dig in golden():
         yield J('p_c14_bitmap', name, dig)
+    for h in list(range(0, 40)) + [2 ** 31, 2 ** 32 - 2]:
+        yield J('p_c14_deco_defaults', h)
     for name, _ in maps:
         cp = codepage(name)
         if cp is None:
